@@ -150,7 +150,7 @@ PROPS["C03"] = {
             "code points, inner whitespace, newlines and tabs (attributes also with surrounding whitespace; label equal to name) through the real to_string/from_string, the re-serialisation, "
             "and five foreign spellings (compact, indented, single quotes + reversed attributes, explicit empty elements + raw '>', attributes on separate lines + CRLF); random messages; "
             "distinct by wire view",
-    "trusted_base": ["ElementTree's writer and expat are exercised, not modelled: the element-level model is compared on the elements they produced"],
+    "trusted_base": ["ElementTree's writer and expat are modelled at the character level (Model/Xml.lean) and tied by the xml correspondence; inputs outside the modelled fragment are answered 'unsupported' and not compared"],
     "assumptions": ["carriage return and leading/trailing whitespace of text values are excluded (the property's own exclusions)"],
 }
 PROPS["C01"] = {
@@ -239,11 +239,19 @@ MANIFEST_TEXT = {
                 "concatenation is a prefix of an admissible stream (opener-free junk gaps, bodies that start with a known opener, parse, have no parsing proper prefix, fit the threshold); "
                 "the concatenated deliveries are exactly the messages whose last character has arrived - so each message is delivered once, in order, at the call following its last "
                 "character, for every partition (C02_fragmentation_independent). Proof: cleanup absorbs, one-shot lemma, session invariant (869 lines, Proofs/Buf.lean). Instance obligations: "
-                "no registered tag contains '<', thresholds 2048/None (decide on regenerated tables). Tied to buffer.py by a differential correspondence in which the model runs with the table "
+                "no registered tag contains '<', thresholds 2048/None (decide on regenerated tables). CONCRETE level (Properties/Wire.lean, Proofs/Xml*.lean, ~1 400 lines): over the character-level "
+                "model of the wire format (Model/Xml.lean: ElementTree's writer; expat + tree builder as a character-driven automaton with a stack) the library's own serialisation of EVERY valid "
+                "wire-safe message is proved an admissible encoding for the library's own parser (admissible_serElem: it parses to the normal form, NO proper prefix of it is a complete document - "
+                "parseDoc_prefix -, it starts with its registered opener and ends with a non-'>' character before '>'), whatever parses contains a registered opener (parseMsg_needsOpener), the XML "
+                "declaration and newline between messages contain no opener (decide +kernel on the regenerated bytes); hence C02_wire / C02_wire': for ANY list of valid messages whose to_string() "
+                "fits the threshold (any length when disabled) and ANY partition of the concatenated bytes, the buffer model with the model parser delivers exactly the normal forms of the messages "
+                "whose last character has arrived, in order, once. Tied to buffer.py by a differential correspondence in which the model runs with the table "
                 "of substrings the real parser accepts; oracle = Spec expectedCalls computed in Lean after checking StreamOk on the case.",
-        "note": "Trusted: Lean kernel + standard axioms; that library/foreign spellings are Admissible for the real parser is checked per case by the executable streamOkB (and assumed in general: "
-                "the character-level XML lemmas are not proved); tools/comp_buf.build_table.",
-        "technique": "Lean 4 proof by induction (well-founded process loop, session invariant) for an abstract parser + differential correspondence with table-instantiated parser",
+        "note": "Trusted: Lean kernel + standard axioms; the character-level model is tied to ElementTree/expat by the xml correspondence (ET.fromstring vs Xml.parseDoc on library output, five "
+                "foreign spellings, every truncation, grammar-based documents, mutations, word salad, every code-point class raw and as reference; ET.tostring vs Xml.serElem; Buffer with the real "
+                "parser vs the buffer model with the MODEL parser on the C02/C11 streams); inputs outside the modelled fragment (DOCTYPE, namespaces, non-ASCII names, encoding declarations) are "
+                "answered 'unsupported', counted and not compared. Foreign spellings are Admissible per case (executable streamOkB), not by theorem; tools/comp_buf.build_table.",
+        "technique": "Lean 4 proof by induction (well-founded process loop, session invariant) for an abstract parser, instantiated by theorem with a character-level automaton model of expat/ElementTree + differential correspondence (table-instantiated parser and model parser)",
     },
     "C11": {
         "text": "Kernel-checked theorems (lean/Indi/Properties/C11.lean) for ANY text, ANY parser: processLoop is total (termination proof, measure = retained length) with no error outcome; "
@@ -252,7 +260,8 @@ MANIFEST_TEXT = {
                 "C11_resync (after a corrupt prefix every message of the following valid stream is delivered, in order, once that stream exceeds the threshold). Correspondence against buffer.py over junk assembled from protocol "
                 "fragments, truncations at every position and long junk, all thresholds, with a watchdog; oracle c11Holds in Lean on the observed calls.",
         "note": "Trusted: Lean kernel + standard axioms; the per-case executable checks streamOkB/corruptB decide whether a theorem's hypotheses hold for the real parser on that case; "
-                "wall-clock hang-freedom of CPython/expat is represented by the watchdog only.",
+                "wall-clock hang-freedom of CPython/expat is represented by the watchdog only. The abstract theorems hold for ANY parser, in particular for the character-level model "
+                "parser (Model/Xml.lean), which the xml session suite runs inside the buffer model against the real Buffer + expat on the same junk streams.",
         "technique": "Lean 4 termination proof + invariants over the process loop + differential correspondence with watchdog",
     },
     "C10": {
@@ -354,11 +363,16 @@ MANIFEST_TEXT = {
                 "table regenerated from /repo: any attribute subset, any number of children, any text), fromXml (toXml m) succeeds and equals m up to the normalisation named in the property "
                 "(C03_roundtrip); what is read back is valid (C03_parsed_valid); parse . serialise is idempotent from the first parse on, hence identical bytes from the second serialisation on "
                 "(C03_fixed_point, with the explicit hypothesis that no text is blank - the property's own exclusion of leading/trailing whitespace; the statement without it is refuted by the "
-                "kernel-checked C03_fixed_point_counterexample). Generic in the class table; the generated table enters through one decide +kernel fact. Tied to the code by the real "
+                "kernel-checked C03_fixed_point_counterexample). Generic in the class table; the generated table enters through one decide +kernel fact. BYTE level (Properties/Wire.lean over Model/Xml.lean, the "
+                "character-level model of ElementTree's writer and of expat + tree builder): run_serElem / parseDoc_serElem - the parser automaton reads the writer's output for EVERY element over XML "
+                "Char (ASCII names, no duplicate attribute, carriage return only in attribute values) back as the very same element (escaping of & < > \" CR LF TAB, character references for all "
+                "non-ASCII code points by induction over decimal digits); fromString_toString - from_string(to_string(m)) = from_xml(to_xml(m)) with the declaration and trailing newline regenerated "
+                "from the source; toString_fixed_point - the second and third serialisations are identical byte for byte. Tied to the code by the real "
                 "to_string/from_string round trip on all kinds x attribute subsets x children x character classes x five foreign spellings, compared with the model and judged by the Lean spec.",
-        "note": "The element level is proved; the character level (ElementTree writer, expat: escaping, quoting, declaration) is exercised by the correspondence, not modelled. "
-                "Trusted: kernel, translator, harness.msg_view.",
-        "technique": "Lean 4 theorem (round trip of an element-level codec, generic in a regenerated class table) + differential correspondence through the real XML writer and parser",
+        "note": "ElementTree's writer and expat are modelled (they are the standard library, not the repository): the model is tied to them by the xml correspondence (113 000 documents in the "
+                "thorough tier: library output, foreign spellings, truncations, grammar-based documents, mutations, every code-point class) with 'unsupported' for DOCTYPE/namespaces/non-ASCII names. "
+                "Foreign spellings are covered by the correspondence and the oracle, not by theorem. Trusted: kernel, translator, harness.msg_view.",
+        "technique": "Lean 4 theorems (element-level codec round trip generic in a regenerated class table; character-level round trip of a writer model through a parser automaton) + differential correspondence through the real XML writer and parser",
     },
     "C17": {
         "text": "Kernel-checked theorems (lean/Indi/Properties/C17.lean): C17 - for every configuration (timeout, polling delay/interval >= 1), every timed sequence of event batches (any "
